@@ -117,7 +117,7 @@ pub fn split_tokens(num: &Num, cuts: &[u8]) -> Vec<MNode> {
     toks
 }
 
-pub const CONTEXTS: &[&str] = &["alone", "sum", "after-equals", "exponent", "numerator", "sqrt", "final-period", "final-comma", "product", "table-cell"];
+pub const CONTEXTS: &[&str] = &["alone", "sum", "after-equals", "exponent", "numerator", "sqrt", "final-period", "final-comma", "product", "table-cell", "own-row-in-fenced-sum", "own-row-after-function"];
 
 pub fn in_context(ctx: u8, number: Vec<MNode>, decimal: &str, block: &str) -> Option<MNode> {
     let name = CONTEXTS[(ctx as usize) % CONTEXTS.len()];
@@ -155,6 +155,10 @@ pub fn in_context(ctx: u8, number: Vec<MNode>, decimal: &str, block: &str) -> Op
             k.push(MNode::mtext(";"));
             MNode::math(vec![MNode::row(k)])
         }
+        // the number (in its own mrow) directly after an open fence, followed by more material before the close:
+        // not a list, so it folds
+        "own-row-in-fenced-sum" => MNode::math(vec![MNode::row(vec![MNode::mo("("), n(number), MNode::mo("+"), MNode::mi("x"), MNode::mo(")")])]),
+        "own-row-after-function" => MNode::math(vec![MNode::row(vec![MNode::mi("f"), MNode::mo("("), n(number), MNode::mo("−"), MNode::mi("x"), MNode::mo(")")])]),
         "product" => {
             let mut k = number;
             k.push(MNode::mo("×"));
@@ -225,7 +229,7 @@ impl Property for C16 {
         });
         let fold = (num, proptest::collection::vec(any::<u8>(), 4), any::<u8>()).prop_map(|((locale, num), cuts, context)| Case::Fold { locale, num, cuts, context });
         // negative cases, restricted to what is invalid under every documented pattern
-        let nofold = (loc, 0..5u8, "[1-9][0-9]{0,2}", "[0-9]{1,2}", "[0-9]{1,3}").prop_map(|((locale, _), kind, a, b, c)| {
+        let nofold = (loc, 0..6u8, "[1-9][0-9]{0,2}", "[0-9]{1,2}", "[0-9]{1,3}").prop_map(|((locale, _), kind, a, b, c)| {
             let d = locale.decimal.chars().next().unwrap().to_string();
             let mn = |s: &str| ("mn".to_string(), s.to_string());
             let mo = |s: &str| ("mo".to_string(), s.to_string());
@@ -235,7 +239,8 @@ impl Property for C16 {
                 1 => Case::NoFold { locale: locales()[0].clone(), kind: "short-group-after-comma".into(), tokens: vec![mn(&a), mo(","), mn(&b)] },
                 2 => Case::NoFold { locale, kind: "operator-in-between".into(), tokens: vec![mn(&a), mo("+"), mn(&c)] },
                 3 => Case::NoFold { locale: locales()[0].clone(), kind: "list-in-fences".into(), tokens: vec![mi("f"), mo("("), mn(&a), mo(","), mn(&format!("{:0>3}", c)), mo(")")] },
-                _ => Case::NoFold { locale: locales()[0].clone(), kind: "set-list".into(), tokens: vec![mo("{"), mn(&a), mo(","), mn(&b), mo(","), mn(&c), mo("}")] },
+                4 => Case::NoFold { locale: locales()[0].clone(), kind: "set-list".into(), tokens: vec![mo("{"), mn(&a), mo(","), mn(&b), mo(","), mn(&c), mo("}")] },
+                _ => Case::NoFold { locale: locales()[0].clone(), kind: "own-row-list-in-fences-then-more".into(), tokens: vec![mo("("), ("mrow-open".to_string(), String::new()), mn(&a), mo(","), mn(&format!("{:0>3}", c)), ("mrow-close".to_string(), String::new()), mo(")"), mo("+"), mi("x")] },
             }
         });
         prop_oneof![6 => fold, 1 => nofold].boxed()
@@ -307,7 +312,23 @@ impl Property for C16 {
                 if let Err(e) = set_locale(locale) {
                     return Outcome::reject(&format!("locale rejected {}", e.chars().take(30).collect::<String>()));
                 }
-                let kids: Vec<MNode> = tokens.iter().map(|(t, s)| MNode::leaf(t, s)).collect();
+                // "mrow-open" / "mrow-close" pseudo tokens wrap what lies between them in an author mrow
+                let mut kids: Vec<MNode> = vec![];
+                let mut group: Option<Vec<MNode>> = None;
+                for (t, s) in tokens {
+                    match t.as_str() {
+                        "mrow-open" => group = Some(vec![]),
+                        "mrow-close" => {
+                            if let Some(g) = group.take() {
+                                kids.push(MNode::row(g));
+                            }
+                        }
+                        _ => match group.as_mut() {
+                            Some(g) => g.push(MNode::leaf(t, s)),
+                            None => kids.push(MNode::leaf(t, s)),
+                        },
+                    }
+                }
                 let xml = MNode::math(vec![MNode::row(kids)]).to_xml();
                 let c = match api::set_mathml(&xml) {
                     Ok(c) => c,
